@@ -539,6 +539,12 @@ func runC09(run *Run) {
 	// nils of every length appearing in one step, holes growing from every middle position, and growth (hole
 	// filled upwards / downwards, then growth past the end through every store path)
 	runCases(run, interleave(genArraySweeps(maxN, maxHole), 16), execTable, classifyNone)
+	// fourth pass: the hash part after many deletions (insertion-order bookkeeping), see genHashChurnSweeps
+	churnN := 130
+	if run.Tier == "thorough" {
+		churnN = 300
+	}
+	runCases(run, interleave(genHashChurnSweeps(churnN), 8), execTable, classifyNone)
 	// last pass: the exported tunable MaxArrayIndex lowered so that the array/hash routing boundary is
 	// reachable without a 1 GiB array (the Model takes MaxArrayIndex as a parameter of every table)
 	saved := lua.MaxArrayIndex
